@@ -20,7 +20,7 @@
   `Proofs/FlatSpec.lean` proves that this refines the position-level arrays of Model/Engine.lean.
   Import-free (core Lean only).
 -/
-import RSVerif.Model.Blocks
+import RSVerif.Model.SimdBlock
 
 namespace RS
 
@@ -29,8 +29,7 @@ namespace RS
 /-- `[0u8; 64]` -/
 def zeroBlock : Block := Vector.replicate 64 0#8
 
-/-- bytewise xor of two blocks (the per-block body of `bXor`) -/
-def blockXor (a b : Block) : Block := Vector.zipWith (· ^^^ ·) a b
+-- `blockXor` (bytewise xor of two blocks, the per-block body of `bXor`) is the one of Model/SimdBlock.lean
 
 /-- a symbol-level kernel applied to the 32 (low byte `i`, high byte `i + 32`) pairs of one block
     (the per-block body of `bMul`) -/
